@@ -6,6 +6,7 @@ mod crash;
 mod cyref;
 mod multi;
 mod qchk;
+mod qexpr;
 mod qry;
 mod rt;
 mod sched;
@@ -74,6 +75,10 @@ fn main() {
         "C29" => schk::c29(tier),
         "C35" => schk::c35(tier),
         "C11" => qchk::c11(tier),
+        "C20" => qexpr::c20(tier),
+        "C21" => qexpr::c21(tier),
+        "C22" => qexpr::c22(tier),
+        "C23" => qexpr::c23(tier),
         "C10" => multi::c10(tier),
         "C04" => seq::c04(tier),
         "C05" => seq::c05(tier),
